@@ -98,6 +98,12 @@ func gen(tier string) []proto.Item {
 						s := base(v, r)
 						s.Hops = map[int]proto.HopSpec{g.ttl: {Form: g.form, From: from, Perturb: pt, Tag: "perturbed", AliasTTL: alias}}
 						items = append(items, proto.Item{Scn: s, Class: fmt.Sprintf("%s/%s/%s/%s/%s/instead", v, rtag, g.form, field, op)})
+						if (vi.Kind == "tcp" || vi.Kind == "tcpparis" || vi.Kind == "sack") && !simnet.IsICMPError(g.form) {
+							// capture filtering is only an optimisation (a no-op on some platforms): the matcher alone must reject it
+							s2 := s
+							s2.FiltersOff = true
+							items = append(items, proto.Item{Scn: s2, Class: fmt.Sprintf("%s/%s/%s/%s/%s/instead/filters-off", v, rtag, g.form, field, op)})
+						}
 						// before / after the genuine reply
 						for _, mode := range []string{"before", "after"} {
 							s := base(v, r)
